@@ -105,9 +105,11 @@ pub fn gen_case(run_seed: u64, tier: Tier) -> PfCase {
         kinds,
         bug_seed: frng.next_u64(),
         qseed: stream(run_seed, "queries").next_u64(),
-        life: match frng.below(6) {
+        life: match frng.below(8) {
             0 | 1 => 1,
             2 => 2,
+            3 => 3,
+            4 => 4,
             _ => 0,
         },
     }
@@ -169,6 +171,47 @@ pub fn exec(case: &PfCase) -> RunOut {
             }
             Err(_) => t,
         },
+        // clone_from into an existing, smaller tree of the same type
+        3 => {
+            let small: Vec<u128> = if n >= 3 { v[..n.min(37)].to_vec() } else { vec![0, 1, 2] };
+            let r = catch(|| {
+                verif::set_orders(Order::Seeded(case.orders.1), Order::Seeded(case.orders.0));
+                let mut dst = build_tree(case.alias, case.ty, Path::FromVec, &small);
+                verif::set_orders(Order::Canonical, Order::Canonical);
+                let ok = dst.clone_from_dyn(t.as_ref());
+                (dst, ok)
+            });
+            verif::set_orders(Order::Canonical, Order::Canonical);
+            match r {
+                Ok((y, true)) => {
+                    out.count("incarnation.clone_from", 1);
+                    y
+                }
+                _ => t,
+            }
+        }
+        // loaded from the bytes written by the alias that differs only in prefetch support (same wire format)
+        4 => {
+            let r = catch(|| {
+                let sib = case.alias.prefetch_sibling().ok_or_else(|| "no sibling".to_string())?;
+                verif::set_orders(Order::Seeded(case.orders.0), Order::Seeded(case.orders.1));
+                let other = build_tree(sib, case.ty, Path::FromVec, &v);
+                verif::set_orders(Order::Canonical, Order::Canonical);
+                let bytes = crate::ds::ser_vec(other.as_ref(), 0)?;
+                t.de_from(0, &mut &bytes[..])
+            });
+            verif::set_orders(Order::Canonical, Order::Canonical);
+            match r {
+                Ok(Ok(y)) => {
+                    out.count("incarnation.loaded_from_sibling_alias", 1);
+                    y
+                }
+                _ => {
+                    out.count("sibling_reload_failed", 1);
+                    t
+                }
+            }
+        }
         _ => t,
     };
     let levels = match t.answer(&Q::NLevels) {
